@@ -24,7 +24,8 @@ def run(ctx):
         if r.violated:
             raise vlib.Infra("TLC: %s violated in Redeliver.tla (%s)" % (r.violated, cfg))
         vlib.require_tlc_ok(r, "Redeliver " + cfg)
-        for mode, args in (("seq", []), ("conc", ["-concurrent"])):
+        # "wide": three documents in one millisecond with random parts over the whole uint64 range (proxy-like IDs)
+        for mode, args in (("seq", []), ("conc", ["-concurrent"]), ("wide", ["-wide"])):
             mism, summ, _ = vlib.run_cases(ctx, drv, args + ["-workers", str(vlib.NCPU)], cf, label=label + mode, timeout=3400)
             for k in tot:
                 tot[k] += summ[k]
